@@ -460,6 +460,93 @@ for _fi in (False, True):
              fit_intercept=_fi)
 
 
+def group_line_search_descent_task(T, fit_intercept):
+    """group_prox_newton._backtrack_line_search leaves through `break` only with a smaller objective: the acceptance test
+    penalty(new) - penalty(old) + step * <grad f(new), delta> < 0 implies datafit + penalty decreased BY CONVEXITY of the datafit, provided
+    every gradient in the test -- the intercept's too -- is taken at the TRIAL point.  Smooth convex datafit known through its group
+    interface (a quadratic loss), real WeightedGroupL2; 1 sample, groups (1,0),(2), 2 halvings (bounded)"""
+    import z3
+    from pv import sym, symrun
+    from pv.sproof import check_contract, zpre
+    from .c06 import Env
+    from .catalog import objarr
+    symrun.install()
+    import skglm.solvers.group_prox_newton as gm
+    WG = symrun.get('skglm.penalties.block_separable', 'WeightedGroupL2')
+    n, p = 1, 3
+    e = Env(n, p)
+    R, L = sym.SymReal, sym.lift
+    a, b0 = z3.Real('alpha'), z3.Real('b')
+    dl = [z3.Real(f'd{k}') for k in range(p)] + [z3.Real('db')]
+    fi = 1 if fit_intercept else 0
+    zero = lambda: R(z3.RealVal(0))
+
+    class QuadGroup:
+        """f(Xw) = ||Xw - y||^2 / (2 n) through the group-datafit interface"""
+        grp_ptr, grp_indices = GP, GI
+
+        def value(self, y, w, Xw):
+            return sum(((Xw[i] - y[i]) * (Xw[i] - y[i]) for i in range(n)), zero()) / (2 * n)
+
+        def raw_grad(self, y, Xw):
+            return np.array([(Xw[i] - y[i]) / n for i in range(n)], dtype=object)
+
+        def gradient_g(self, X, y, w, Xw, g):
+            rg = self.raw_grad(y, Xw)
+            return np.array([sum((X[i, j] * rg[i] for i in range(n)), zero()) for j in GROUPS[int(g)]], dtype=object)
+
+    PENV = z3.Function('PENALTY_VALUE', z3.RealSort(), z3.RealSort(), z3.RealSort(), z3.RealSort())
+
+    class Pen:
+        """a group penalty known through its interface: value(w[:n_features]) is a function of the coefficients (the acceptance
+        argument needs nothing else from it)"""
+        grp_ptr, grp_indices = GP, GI
+
+        def value(self, w):
+            assert len(w) == p, 'the penalty is evaluated on the feature coefficients only'
+            return R(PENV(*[L(t) for t in w]))
+
+    def run():
+        old = gm.MAX_BACKTRACK_ITER
+        gm.MAX_BACKTRACK_ITER = 2
+        try:
+            X, y = e.symX(), e.sym(e.y)
+            w0 = np.array([R(t) for t in e.w] + ([R(b0)] if fi else []), dtype=object)
+            w = w0.copy()
+            Xw0 = np.array([sum((X[i, k] * w0[k] for k in range(p)), zero()) + (w0[p] if fi else 0.) for i in range(n)], dtype=object)
+            Xw = Xw0.copy()
+            ws = np.array([1, 0])
+            order = [2, 1, 0]
+            delta = np.array([R(dl[k]) for k in order] + ([R(dl[p])] if fi else []), dtype=object)
+            Xd = np.array([sum((X[i, k] * R(dl[k]) for k in range(p)), zero()) + (R(dl[p]) if fi else 0.) for i in range(n)], dtype=object)
+            df = QuadGroup()
+            pen = Pen()
+            gm._backtrack_line_search(X, y, w, Xw, fit_intercept, df, pen, delta, Xd, ws)
+            f0, f1 = df.value(y, w0, Xw0), df.value(y, w, Xw)
+            o0, o1 = f0 + pen.value(w0[:p]), f1 + pen.value(w[:p])
+            rg = df.raw_grad(y, Xw)
+            lin = sum(((w[k] - w0[k]) * sum((X[i, k] * rg[i] for i in range(n)), zero()) for k in range(p)), zero())
+            if fi:
+                lin = lin + (w[p] - w0[p]) * sum(rg, zero())
+            return o0, o1, f0, f1, lin
+        finally:
+            gm.MAX_BACKTRACK_ITER = old
+
+    def post(out, pth):
+        o0, o1, f0, f1, lin = out
+        convex = L(f0) >= L(f1) - L(lin)
+        cs = [('lemma:datafit-convexity', [], convex)]
+        if bool(pth.decisions) and bool(pth.decisions[-1]):
+            cs.append(('accepted-step-decreases-datafit+penalty(w[:n_features])', [convex], L(o1) < L(o0)))
+        return cs
+    check_contract(T, 'line-search-descent', run, zpre([a > 0]), post, strength='B', safety=False)
+
+
+for _fi in (False, True):
+    add_task(['C03', 'C01'], f'group_prox_newton:_backtrack_line_search[fit_intercept={_fi}]/descent', group_line_search_descent_task,
+             strength='B', fit_intercept=_fi)
+
+
 def replay_group_line_search(args, model):
     """native, with numba's own bounds checking switched on in a fresh interpreter"""
     import subprocess
@@ -543,6 +630,58 @@ def fixpoint_dist_task(T, kind):
 
 for _k in ('cd', 'bcd'):
     add_task(['C01', 'C08', 'C20'], f'common:dist_fix_point_{_k}[ws=[last]]', fixpoint_dist_task, strength='B', kind=_k)
+
+
+def fixpoint_dist_zero_group_task(T):
+    """dist_fix_point_bcd on the whole working set [0, 1] when group 0 has zero curvature (all-zero columns): group 1 is still scored
+    with ITS OWN block of the stacked gradient (position 2 of grad_ws: group 0 = features (2, 0) takes positions 0, 1)"""
+    import z3
+    from pv import sym, symrun
+    from pv.sproof import check_contract, zpre
+    symrun.install()
+    fn = symrun.get('skglm.solvers.common', 'dist_fix_point_bcd')
+    R, L = sym.SymReal, sym.lift
+    w = [z3.Real(f'w{k}') for k in range(3)]
+    g = [z3.Real(f'g{k}') for k in range(3)]          # stacked: (group 0: 2 entries) + (group 1: 1 entry)
+    lip = z3.Real('lip1')
+
+    def run():
+        pen = StubPenalty(GP, GI)
+        out = fn(np.array([R(t) for t in w], dtype=object), np.array([R(t) for t in g], dtype=object),
+                 np.array([0.0, R(lip)], dtype=object), None, pen, np.array([0, 1]))
+        return out, pen.calls
+
+    def post(out, pth):
+        o, calls = out
+        cs = [('zero-curvature-group-scores-0', [], L(o[0]) == 0), ('one-prox-call(for-group-1)', [], z3.BoolVal(len(calls) == 1))]
+        if len(calls) == 1:
+            val, step, gidx, res = calls[0]
+            feat = int(GROUPS[1][0])
+            cs.append(('group-1-uses-its-own-gradient-block', [], z3.And(z3.BoolVal(int(gidx) == 1), L(step) * lip == 1,
+                                                                     (L(val[0]) - w[feat]) * lip == -g[2])))
+        return cs
+    check_contract(T, 'dist_fix_point_bcd[zero-curvature-group-first]', run, zpre([lip > 0]), post, strength='B',
+                   replay=dict(fn='contracts.kernels2:replay_fixpoint_zero_group', args={}))
+
+
+add_task(['C08', 'C19', 'C01'], 'common:dist_fix_point_bcd[ws=[0,1],group-0-has-zero-curvature]', fixpoint_dist_zero_group_task, strength='B')
+
+
+def replay_fixpoint_zero_group(args, model):
+    from skglm.solvers.common import dist_fix_point_bcd
+    from skglm.penalties import WeightedGroupL2
+    from skglm.datafits import QuadraticGroup
+    from skglm.utils.jit_compilation import compiled_clone
+    gp, gi = np.array([0, 2, 3], dtype=np.int32), np.array([0, 1, 2], dtype=np.int32)
+    pen = compiled_clone(WeightedGroupL2(0.1, np.ones(2), gp, gi))
+    w = np.array([0., 0., 1.])
+    grad = np.array([5., -7., 0.3])
+    lips = np.array([0., 2.])
+    got = dist_fix_point_bcd(w, grad, lips, compiled_clone(QuadraticGroup(gp, gi)), pen, np.array([0, 1]))
+    exp = abs(1. - pen.prox_1group(np.array([1. - 0.3 / 2.]), 0.5, 1)[0])
+    bad = abs(got[1] - exp) > 1e-12
+    return dict(confirmed=bool(bad), detail=f'score of group 1 = {got[1]:.6g}, expected {exp:.6g} (its gradient block is 0.3; the blocks of '
+                'the zero-curvature group 0 are 5, -7)', inputs=dict(w=w.tolist(), grad_ws=grad.tolist(), lipschitz_ws=lips.tolist()))
 
 
 def descent_direction_task(T, sparse, fit_intercept):
